@@ -86,26 +86,23 @@ Proof.
   destruct (s_ret s) as [t |]; cbn [ret_str]; [now rewrite py_str_type_str | reflexivity].
 Qed.
 
-(* with coinciding names, the signature a client derives from the contract's method entry is the one
-   the program dispatches on *)
-Lemma same_name_reg : forall r, same_name r = true -> registered_sig r = r_sig r.
-Proof.
-  intros [[n ps rt] o] H. unfold same_name, registered_sig, reg_name in *. cbn in *.
-  destruct o as [m |]; [| reflexivity]. apply String.eqb_eq in H. now subst.
-Qed.
+(* the signature a client derives from the contract's method entry is the one the program dispatches on *)
+Lemma spec_sig_is_method_sig : forall r, spec_sig_str (spec_of r) = dispatched_sig_str r.
+Proof. intros [[n ps rt] [m |]]; reflexivity. Qed.
 
-Lemma spec_sig_is_method_sig : forall r, same_name r = true -> spec_sig_str (spec_of r) = dispatched_sig_str r.
-Proof. intros r H. unfold dispatched_sig_str. rewrite (same_name_reg r H). reflexivity. Qed.
+Lemma spec_of_name : forall r, ms_name (spec_of r) = reg_name r.
+Proof. intros [[n ps rt] [m |]]; reflexivity. Qed.
+Lemma spec_of_args : forall r, ms_args (spec_of r) = map py_str (s_params (r_sig r)).
+Proof. intros [[n ps rt] [m |]]; reflexivity. Qed.
+Lemma spec_of_returns : forall r, ms_returns (spec_of r) = ret_str py_str (s_ret (r_sig r)).
+Proof. intros [[n ps rt] [m |]]; reflexivity. Qed.
 
 Section Contract.
   Variable hash : string -> bytes.
 
-  (* PARTIAL: holds for registrations whose registered name is the subroutine's own name (always the
-     case with the decorator form, and with add_method_handler without overriding_name).  With a
-     different overriding_name the full statement is false: [contract_name_override_refuted]. *)
-  Theorem contract_selectors_agree_partial_main : forall registered,
-    forallb same_name registered = true ->
-    (* the contract lists exactly the registered methods, in order, with their names and types *)
+  (* FULL: every registration, with or without an overriding name *)
+  Theorem contract_selectors_agree_main : forall registered,
+    (* the contract lists exactly the registered methods, in order, under their registered names, with their types *)
     map ms_name (contract_methods registered) = map reg_name registered /\
     map ms_args (contract_methods registered) = map (fun r => map type_str (s_params (r_sig r))) registered /\
     map ms_returns (contract_methods registered) = map (fun r => ret_str type_str (s_ret (r_sig r))) registered /\
@@ -114,17 +111,16 @@ Section Contract.
     contract_selectors hash registered = dispatched_selectors hash registered /\
     dispatched_selectors hash registered = map (fun r => firstn 4 (hash (arc4_sig_str (registered_sig r)))) registered.
   Proof.
-    intros registered Hs. unfold contract_methods, contract_selectors, dispatched_selectors, contract_methods.
-    rewrite !map_map. cbn [spec_of ms_name ms_args ms_returns].
-    assert (Hin : forall r, In r registered -> same_name r = true) by (apply forallb_forall; exact Hs).
+    intro registered. unfold contract_methods, contract_selectors, dispatched_selectors, contract_methods.
+    rewrite !map_map.
     split.
-    { apply map_ext_in. intros r Hr. rewrite <- (same_name_reg r (Hin r Hr)) at 1. reflexivity. }
+    { apply map_ext_in'. apply spec_of_name. }
     split.
-    { apply map_ext_in'. intro r. apply map_ext_in'. apply py_str_type_str. }
+    { apply map_ext_in'. intro r. rewrite spec_of_args. apply map_ext_in'. apply py_str_type_str. }
     split.
-    { apply map_ext_in'. intro r. destruct (s_ret (r_sig r)); cbn [ret_str]; [apply py_str_type_str | reflexivity]. }
+    { apply map_ext_in'. intro r. rewrite spec_of_returns. destruct (s_ret (r_sig r)); cbn [ret_str]; [apply py_str_type_str | reflexivity]. }
     split.
-    { apply map_ext_in. intros r Hr. unfold selector_of_str. now rewrite (spec_sig_is_method_sig r (Hin r Hr)). }
+    { apply map_ext_in'. intro r. unfold selector_of_str. now rewrite spec_sig_is_method_sig. }
     apply map_ext_in'. intro r. unfold selector_of_str, dispatched_sig_str. now rewrite pyteal_sig_is_arc4.
   Qed.
 End Contract.
@@ -133,11 +129,9 @@ End Contract.
 Theorem dispatched_is_registered_main : forall r, dispatched_sig_str r = arc4_sig_str (registered_sig r).
 Proof. intro r. apply pyteal_sig_is_arc4. Qed.
 
-(* REFUTED in full generality: add_method_handler(f, overriding_name="foo") for a subroutine named "add"
-   dispatches on foo(uint64)uint64 while the contract describes add(uint64)uint64 *)
+(* the case that used to be refuted (before /repo 330bd50): add_method_handler(add, overriding_name="foo") *)
 Definition ex_override : registration := mkReg (mkSig "add" [TUint 64] (Some (TUint 64))) (Some "foo"%string).
-Theorem contract_name_override_refuted_main :
-  exists r, spec_sig_str (spec_of r) <> dispatched_sig_str r /\
-            spec_sig_str (spec_of r) = "add(uint64)uint64"%string /\
-            dispatched_sig_str r = "foo(uint64)uint64"%string.
-Proof. exists ex_override. vm_compute. repeat split. discriminate. Qed.
+Example override_contract_follows_registered_name :
+  spec_sig_str (spec_of ex_override) = "foo(uint64)uint64"%string /\
+  dispatched_sig_str ex_override = "foo(uint64)uint64"%string.
+Proof. vm_compute. split; reflexivity. Qed.
